@@ -323,7 +323,7 @@ KINDS = {
               ('kinds-depth2', {'Sym': '{"a"}', 'MaxFile': 2, 'MaxCtx': 1, 'Depth': 2, 'Small': 'TRUE', 'EmitCases': 'TRUE'})],
     'thorough': [('kinds-depth1', {'Sym': '{"a","b"}', 'MaxFile': 3, 'MaxCtx': 1, 'Depth': 1, 'Small': 'FALSE', 'EmitCases': 'TRUE'}),
                  ('kinds-depth2', {'Sym': '{"a","b"}', 'MaxFile': 2, 'MaxCtx': 0, 'Depth': 2, 'Small': 'TRUE', 'EmitCases': 'TRUE'}),
-                 ('kinds-depth3', {'Sym': '{"a"}', 'MaxFile': 1, 'MaxCtx': 1, 'Depth': 3, 'Small': 'TRUE', 'EmitCases': 'TRUE'})],
+                 ('kinds-depth3', {'Sym': '{"a"}', 'MaxFile': 1, 'MaxCtx': 0, 'Depth': 3, 'Small': 'TRUE', 'EmitCases': 'TRUE'})],
 }
 
 
